@@ -70,14 +70,13 @@ Inductive oout :=
 
 Record robs := { ro_panics : list nat;      (* registration calls that panicked *)
                  ro_ran : list nat;          (* middlewares entered, in order *)
-                 ro_pre : list bstr;         (* ResolvePattern before next, per asking middleware *)
+                 ro_pre : list (bstr * list (bstr * bstr)); (* ResolvePattern and Vars before next, per asking middleware *)
                  ro_out : oout;
                  ro_post : bstr }.           (* ResolvePattern after next (outermost middleware) *)
 
 Record rcase := { rc_ops : list op; rc_meth : method; rc_wire : bstr; rc_pre : list bool;
                   rc_acc_raw : mt; rc_acc_parsed : option mt;
                   rc_reached : option nat;     (* oracle: handler chi chose for the routed path *)
-                  rc_dec : option nat;         (* oracle: handler chi chose when goa matched the decoded Path *)
                   rc_obs : option robs }.      (* None: url.Parse refused the URL *)
 
 Definition choose (h : option nat) (cs : list route) : option route :=
@@ -86,15 +85,8 @@ Definition choose (h : option nat) (cs : list route) : option route :=
   | None => hd_error cs
   end.
 
-Fixpoint lbeq (a b : list bstr) : bool :=
-  match a, b with
-  | [], [] => true
-  | x :: a', y :: b' => beq x y && lbeq a' b'
-  | _, _ => false
-  end.
-
-Definition pick_obs (rsegs : list bstr) (reached dec : option nat) : list bstr -> list route -> option route :=
-  fun segs cs => if lbeq segs rsegs then choose reached cs else choose dec cs.
+Definition pick_obs (reached : option nat) : list bstr -> list route -> option route :=
+  fun _ cs => choose reached cs.
 
 (* Go map semantics of the assignments Vars makes: the last one for a key wins *)
 Fixpoint has_key (k : bstr) (l : list (bstr * bstr)) : bool :=
@@ -137,19 +129,22 @@ Definition out_ok (model : outcome) (o : oout) : bool :=
   | _, _ => false
   end.
 
+Fixpoint pre_ok (model observed : list (bstr * list (bstr * bstr))) : bool :=
+  match model, observed with
+  | [], [] => true
+  | (p, vs) :: a, (p', vs') :: b => beq p p' && same_map vs vs' && pre_ok a b
+  | _, _ => false
+  end.
+
 Definition rcase_ok (c : rcase) : bool :=
   let (m, panics) := build (rc_ops c) 0 new_muxer in
-  let rsegs := match set_path (rc_wire c) with
-               | Some (path, raw) => path_segs (route_path path raw)
-               | None => []
-               end in
-  match serve (pick_obs rsegs (rc_reached c) (rc_dec c)) m (rc_meth c) (rc_wire c) (rc_pre c)
+  match serve (pick_obs (rc_reached c)) m (rc_meth c) (rc_wire c) (rc_pre c)
               (rc_acc_raw c) (rc_acc_parsed c), rc_obs c with
   | None, None => true
   | Some mo, Some o =>
     nat_list_eqb panics (ro_panics o)
     && nat_list_eqb (mws m) (ro_ran o)
-    && lbeq (o_pre mo) (ro_pre o)
+    && pre_ok (o_pre mo) (ro_pre o)
     && out_ok (o_out mo) (ro_out o)
     && (is_nil (mws m) || beq (o_post mo) (ro_post o))
   | _, _ => false
